@@ -568,6 +568,22 @@ def read_text(text, rmode, tmp, path=None):
             delivered = ref.universal_newlines(text)
             with open(path, 'r', encoding='utf-8') as f:
                 F = CNF.from_file(f)
+        elif rmode in ('fdfile', 'tmpfile'):
+            # file objects whose .name is not a string (a descriptor number):
+            # os.fdopen, tempfile.TemporaryFile, pipes
+            delivered = ref.universal_newlines(text)
+            if rmode == 'fdfile':
+                if path is None:
+                    path = tmp.path('.cnf')
+                    with open(path, 'w', encoding='utf-8', newline='') as f:
+                        f.write(text)
+                with os.fdopen(os.open(path, os.O_RDONLY), 'r', encoding='utf-8') as f:
+                    F = CNF.from_file(f)
+            else:
+                with tempfile.TemporaryFile('w+', encoding='utf-8', newline='') as f:
+                    f.write(text)
+                    f.seek(0)
+                    F = CNF.from_file(f)
         elif rmode == 'stdin':
             old = sys.stdin
             sys.stdin = io.StringIO(text)
@@ -1102,8 +1118,8 @@ def run_modes(args, R):
     tmp, rep = Tmp(), Reporter(R)
     alpha = LINES + [l for l in EXOTIC if l not in LINES]
     try:
-        for mode in ('path', 'stdin'):
-            for k in (1, 2):
+        for mode in ('path', 'stdin', 'fdfile', 'tmpfile'):
+            for k in ((1, 2) if mode in ('path', 'stdin') else (1,)):
                 for lines in itertools.product(alpha, repeat=k):
                     body = '\n'.join(lines)
                     _read_case(R, rep, tmp, body + '\n', mode=mode, sample_every=2503)
